@@ -329,6 +329,12 @@ class RecordingBackend(AsyncResultBackend):  # type: ignore[type-arg]
         self.fail = set(sc.spec.get("backend", {}).get("fail", []))
         self.fail_cancel = set(sc.spec.get("backend", {}).get("fail_cancel", []))
         self.store: Dict[str, Any] = {}
+        self.stock: Any = None
+        if sc.spec.get("backend", {}).get("stock"):
+            from taskiq.brokers.inmemory_broker import InmemoryResultBackend
+
+            self.stock = InmemoryResultBackend(max_stored_results=sc.spec["backend"].get("stock_max", 100))
+            sc.stock_backend = self.stock  # type: ignore[attr-defined]
 
     async def set_result(self, task_id: str, result: Any) -> None:
         sc = self.sc
@@ -353,6 +359,8 @@ class RecordingBackend(AsyncResultBackend):  # type: ignore[type-arg]
             sc.trace.add("set_fail", d)
             raise BackendDown("backend down")
         self.store[task_id] = result
+        if self.stock is not None:
+            await self.stock.set_result(task_id, result)  # the bundled in-memory backend sees every write
         sc.trace.add("set_exit", d)
 
     async def set_progress(self, task_id: str, progress: Any) -> None:
